@@ -118,6 +118,7 @@ class RunMonitor:
         self.max_consec_noeval = 0
         self.flags = set()
         self.monitor_errors = []
+        self.struct_notes = []
         self.last_neighbors = None
         self.n_incumbent_updates = 0
         self._prev_loop_u = None
@@ -131,6 +132,13 @@ class RunMonitor:
     # ------------------------------------------------------------------ utils
     def c(self, name, n=1):
         self.cnt[name] = self.cnt.get(name, 0) + n
+
+    def struct(self, key, **detail):
+        """a seam did not behave the way the monitor's instrumentation assumes (e.g. an internal helper was
+        inlined or is reached through another name): NOT a property violation - the run is inconclusive"""
+        self.c("STRUCT." + key)
+        if len(self.struct_notes) < 5:
+            self.struct_notes.append({"key": key, "detail": jsonable(detail)})
 
     def v(self, key, **detail):
         n = self.viol_count.get(key, 0)
@@ -550,7 +558,9 @@ class RunMonitor:
                 if len(st["evals"]) > 1:
                     mon.v("C18/search-step-multiple-evals", n=len(st["evals"]))
             if "C03" in mon.want and b.optim_state["search_count"] != st["count0"] + 1:
-                mon.v("C03/search-count-not-advanced", before=st["count0"], after=b.optim_state["search_count"])
+                # implementation-level bookkeeping (where the attempt counter is advanced): counted only;
+                # the property-level consequence (non-progress) is what the loop probe judges
+                mon.c("C03.search_count_not_advanced_inside_search_step")
             if "C13" in mon.want and int(b.mesh_size_integer) != st["k0"]:
                 mon.v("C13/mesh-changed-in-search", before=st["k0"], after=int(b.mesh_size_integer))
             return out
@@ -705,7 +715,7 @@ class RunMonitor:
             if len(st["gens"]) > 1:
                 self.c("C14.multiple_generations")
             if ne and not st["gens"]:
-                self.v("C14/poll-evals-without-directions", n=ne)
+                self.struct("poll-evaluations-without-observed-direction-generator-call", n=ne)
             if st["gens"]:
                 g = st["gens"][0]
                 Dm = g["B"] * g["poll_scale"]
@@ -908,7 +918,7 @@ class RunMonitor:
         allu = [a for a, _ in st["acq"]]
         allz = [zz for _, zz in st["acq"]]
         if not allu:
-            self.v("C18/es-returned-without-acquisition", cls=st["cls"])
+            self.struct("es-call-without-observed-acquisition-evaluation", cls=st["cls"])
             return
         U = np.vstack(allu)
         Z = np.concatenate(allz)
@@ -979,7 +989,7 @@ class RunMonitor:
             self.c("C15.acq_custom_beta")
             return out
         if len(seen) != 1 or len(seen[0][0]) < 1 or seen[0][0][0] is not xi or len(seen[0][0]) > 1 or seen[0][1]:
-            self.v("C15/acquisition-prediction-not-plain-gp-predict-at-candidates", n_predict_calls=len(seen), site=site)
+            self.struct("acquisition-did-not-make-exactly-one-plain-gp.predict-call", n_predict_calls=len(seen), site=site)
             return out
         mu, s2 = seen[0][2]
         D = xa.shape[1]
@@ -1129,7 +1139,7 @@ class RunMonitor:
         nearest-neighbour selector returned for this call (same rows, same order)"""
         ln = self.last_neighbors
         if ln is None:
-            self.v("C15/local-fit-without-neighbour-selection")
+            self.struct("local-fit-without-observed-neighbour-selection")
             return
         U, Y, S = ln
         self.c("C15.local_fit_sets_compared")
@@ -1389,6 +1399,8 @@ class RunMonitor:
             rec["fault"] = {k: v for k, v in self.fault.items() if k not in ("exc_obj",)}
         if self.monitor_errors and not rec.get("oracle_error"):
             rec["oracle_error"] = self.monitor_errors[0]
+        if self.struct_notes:
+            rec["struct_notes"] = self.struct_notes
         rec["viol"] = self.viol
         rec["viol_count"] = self.viol_count
         rec["cnt"] = self.cnt
